@@ -28,6 +28,7 @@ WHY_NOT_FIXED = {
     "F8": "the repair needs the cascade to be computed at validation time and captured, in v2 and v3; it changes what is stored in every proposal",
     "F18": "part d only: making the two status wrappers report a swallowed conflict touches some thirty call sites of the v3 controller",
     "F24": "a correct repair needs a wake-up design for serializable waits (who re-queues a transaction that waits for *all* earlier ones)",
+    "F27": "the applied cursor does not say whether the proposal it passed was applied or refused, so the 'already applied' shortcut cannot be repaired locally; a repair records the outcome with the cursor (a change of the configuration record) or re-orders the two writes, which re-opens the liveness hole C07.2c closes",
     "F25": "the repair changes the persistence semantics of both value maps (the store must delete what the map no longer has), the ancestor search of applyChangeToConfig in v2 and v3, and the merge into the applied values",
 }
 
@@ -134,7 +135,9 @@ def main():
     part1 = open(os.path.join(HERE, "design", "part1.md")).read()
     part1 = (part1.replace("{{NOBL}}", str(nobl)).replace("{{NEV}}", "≈%d 000" % round(nev / 1000))
              .replace("{{NKNOWN}}", str(len([e for e in kf if e["status"] == "known"])))
-             .replace("{{NFIX}}", str(len({e["commit"] for e in kf if e["status"] == "fixed"}))))
+             .replace("{{NFIX}}", str(len({e["commit"] for e in kf if e["status"] == "fixed"})))
+             .replace("{{NSEED}}", str(len(glob.glob(os.path.join(HERE, "seeded", "*", "meta.json")))))
+             .replace("{{NMISSED}}", str(len([1 for p in glob.glob(os.path.join(HERE, "seeded", "*", "meta.json")) if json.load(open(p)).get("missed_before")]))))
     part2 = open(os.path.join(HERE, "design", "part2.md")).read()
     doc = "\n".join([part1, "---------------------------------------------------------------------------------------------\n", s3,
                      "---------------------------------------------------------------------------------------------\n", section4(),
